@@ -118,6 +118,17 @@ def aggLoop (padding : Bool) : Nat → Bytes → List Bytes → Option (List Byt
         if rest'.length = 0 then some acc' else aggLoop padding fuel rest' acc'
     | _ => none
 
+/-! ### checked slice operations (`none` = the Go expression would panic) -/
+
+/-- `b[i]` -/
+def idx? (b : Bytes) (i : Nat) : Option UInt8 := b[i]?
+
+/-- `b[lo:]` -/
+def sliceFrom? (b : Bytes) (lo : Nat) : Option Bytes := if lo ≤ b.length then some (b.drop lo) else none
+
+/-- `b[:hi]` -/
+def sliceTo? (b : Bytes) (hi : Nat) : Option Bytes := if hi ≤ b.length then some (b.take hi) else none
+
 def runDecG {D α : Type} (decode : D → Pkt → D × DecRes α) (d : D) : List Pkt → D × List (DecRes α)
   | [] => (d, [])
   | p :: ps =>
